@@ -53,6 +53,20 @@ class FakeStdTime:
     def sleep(self, secs: float) -> None: self.now += F(secs)
 
 
+class CallableObject:
+    """A callback that is an object with `__call__` - and, like a container-like handler that is empty when it is
+    registered, possibly falsy: presence must not be mistaken for truthiness."""
+
+    def __init__(self, f, truthy: bool) -> None:
+        self._f, self._truthy = f, truthy
+
+    def __call__(self) -> None:
+        self._f()
+
+    def __bool__(self) -> bool:
+        return self._truthy
+
+
 class CallbackBoom(Exception):
     """Raised by a harness callback the case tells to fail."""
 
@@ -149,7 +163,7 @@ def run_case(case: dict, driver, variant: str = "1"):
                 calls[i] = calls.get(i, 0) + 1
                 if calls[i] in raise_at.get(i, ()):
                     raise CallbackBoom(f"callback {i}, invocation {calls[i]}")
-            fns[i] = f
+            fns[i] = CallableObject(f, i % 2 == 0)
         return fns[i]
 
     def next_failing_position() -> int | None:
@@ -178,6 +192,8 @@ def run_case(case: dict, driver, variant: str = "1"):
             # `callbacks` is documented as an iterable: a list, a tuple, a generator, an iterator over a list
             form = (sum(registered) + len(registered)) % 4
             arg = [given, tuple(given), (g for g in given), iter(list(given))][form]
+            if len(given) == 1 and registered[0] % 3 != 2:
+                arg = given[0]          # "or a single callback": the bare callable (every second one is falsy)
             obj = sched_mod.TimeIntervalScheduler(float(interval), arg)
             given.append(rogue)
             del given[:-1]
@@ -370,7 +386,7 @@ def run_step_case(case: dict, driver):
 
     def cb(i: int):
         if i not in fns:
-            fns[i] = lambda: log.append(i)
+            fns[i] = CallableObject(lambda: log.append(i), i % 2 == 0)
         return fns[i]
 
     n = int(case["interval"])
@@ -380,6 +396,8 @@ def run_step_case(case: dict, driver):
         given = [cb(i) for i in registered]
         form = (sum(registered) + len(registered)) % 4
         arg = [given, tuple(given), (g for g in given), iter(list(given))][form]
+        if len(given) == 1 and registered[0] % 3 != 2:
+            arg = given[0]
         obj = sched_mod.StepIntervalScheduler(n, arg)
         given.append(lambda: log.append(-1))     # the caller goes on using its own list: never registered
         del given[:-1]
